@@ -161,10 +161,11 @@ Definition set_wpods (w : world) (l : list pod) : world :=
 Definition set_wpg (w : world) (g : option pgphase) : world :=
   mkWorld (w_spec w) (v_spec w) (w_st w) (v_st w) (w_pods w) (v_pods w) g (v_pg w) (v_ctl w).
 (* a successful UpdateStatus: API server and (cc.cache.Update of the returned
-   object, which carries the API server's current spec) the job cache; the
-   informer has a new version of the job to deliver *)
+   object, which carries the API server's current spec and deletion timestamp)
+   the job cache; the informer has a new version of the job to deliver *)
 Definition write (w : world) (s : status) : world :=
-  mkWorld (w_spec w) (w_spec w) s s (w_pods w) (v_pods w) (w_pg w) (v_pg w) (ctl_dirty (v_ctl w)).
+  mkWorld (w_spec w) (w_spec w) s s (w_pods w) (v_pods w) (w_pg w) (v_pg w)
+          (mkCtl (c_job (v_ctl w)) true (c_wdel (v_ctl w)) (c_wdel (v_ctl w)) (c_queue (v_ctl w))).
 
 (* ---------- requests ---------- *)
 Inductive fault := FCreate (t : positive) (i : Z) | FDelete (t : positive) (i : Z)
@@ -571,7 +572,8 @@ Inductive op :=
 | OSetSpec (sp : spec)                               (* user updates the job spec *)
 | ORestart                                           (* the controller process restarts: empty cache and listers *)
 | OReplaceJob (sp : spec)                            (* the job is deleted and re-created under the same name; its old pods are still around *)
-| OJobDeleting.                                      (* the job gets a deletion timestamp *)
+| OJobDeleting                                       (* the job gets a deletion timestamp *)
+| OStaleJob.                                         (* an older version of the job is delivered after a newer one *)
 
 Definition step (w : world) (o : op) : world * bool * bool :=
   match o with
@@ -601,6 +603,7 @@ Definition step (w : world) (o : op) : world * bool * bool :=
   | OJobDeleting =>
       (mkWorld (w_spec w) (v_spec w) (w_st w) (v_st w) (w_pods w) (v_pods w) (w_pg w) (v_pg w)
                (mkCtl (c_job (v_ctl w)) true true (c_vdel (v_ctl w)) (c_queue (v_ctl w))), false, false)
+  | OStaleJob => (w, false, false)   (* cache.Update refuses an older resourceVersion *)
   end.
 
 Definition run (w : world) (ops : list op) : world := fold_left (fun w o => fst (fst (step w o))) ops w.
